@@ -12,6 +12,22 @@ StairSbf(pat, t) ==
     IN (t \div n) * SumSeq(pat) + SumSeq(SubSeq(pat, 1, t % n))
 AnySbf(s, t) == IF s.k = "stair" THEN StairSbf(s.pattern, t) ELSE Sbf(s, t)
 
+\* ---- C09: the trait's default service_time, observed ---------------------------
+\* op "inverse_trace": for each demand d the interval lengths a[1..n] the default implementation asked the supply about.
+\* It must be a run of the machine of MCDefaultInverse: start at t = d; while S(t) < d jump ahead by the missing
+\* service d - S(t); return the first t with S(t) >= d -- which, S being 1-Lipschitz, is the least such t.
+InverseRunFails(sup, r) ==
+    LET a == r.asked
+        n == Len(a)
+        S(t) == AnySbf(sup, t)
+    IN (IF n >= 1 /\ a[1] = r.d THEN {} ELSE {"starts_at_the_demand"})
+       \cup (IF \A i \in 1..(n - 1) : S(a[i]) < r.d /\ a[i + 1] = a[i] + (r.d - S(a[i])) THEN {} ELSE {"jumps_ahead_by_the_missing_service"})
+       \cup (IF n >= 1 /\ S(a[n]) >= r.d /\ r.t = a[n] THEN {} ELSE {"returns_the_first_sufficient_length"})
+       \cup (IF S(r.t) >= r.d /\ (r.t = 0 \/ S(r.t - 1) < r.d) THEN {} ELSE {"is_the_least_sufficient_length"})
+InverseTraceFails(e) ==
+    IF "runs" \notin DOMAIN e.out THEN {"returns"}
+    ELSE UNION {InverseRunFails(e.in.supply, e.out.runs[i]) : i \in 1..Len(e.out.runs)}
+
 \* the workload is a table w[1..n], constant beyond n
 TabW(w, x) == w[MinOf(x, Len(w))]
 
